@@ -182,7 +182,7 @@ class Promise(object):
         self._target = failure
         if self._state in (EVENTUAL, CHAINED):
             self._deliver_queued_messages()
-        self._state == BROKEN
+        self._state = BROKEN
 
     def _invoke_method(self, name, args, kwargs):
         if isinstance(self._target, Failure):
